@@ -101,6 +101,9 @@ fn members() -> Vec<Entry> {
     // generic group references (each citation binds its own arguments)
     Entry { occ: Occ::One, kind: EK::Ref("kv".into(), vec![t1(text("c")), t1(name("int"))]) },
     Entry { occ: Occ::Opt, kind: EK::Ref("kv".into(), vec![t1(text("b")), t1(name("tstr"))]) },
+    // a generic group whose parameter is called like a rule a sibling member uses (value = any)
+    Entry { occ: Occ::One, kind: EK::Ref("opt".into(), vec![t1(name("tstr"))]) },
+    kv(Occ::One, arrow(name("tstr")), name("value")),
   ]
 }
 
@@ -113,6 +116,13 @@ fn generic_lib() -> Vec<RuleT> {
     assign: Assign::Eq,
     body: Body::Group(Entry { occ: Occ::One, kind: EK::Inline(Grp(vec![vec![Entry { occ: Occ::One, kind: EK::Val(Some(Key::Arrow(t1(name("k")), false)), ty1(name("v"))) }]])) }),
   });
+  lib.push(RuleT {
+    name: "opt".into(),
+    params: vec!["value".into()],
+    assign: Assign::Eq,
+    body: Body::Group(Entry { occ: Occ::One, kind: EK::Inline(Grp(vec![vec![Entry { occ: Occ::Opt, kind: EK::Val(Some(Key::Arrow(t1(name("tstr")), false)), ty1(name("value"))) }]])) }),
+  });
+  lib.push(type_rule("value", ty1(name("any"))));
   lib
 }
 
@@ -414,6 +424,16 @@ fn classify_a(g: &[Vec<Entry>], d: &RV) -> Option<String> {
   }
   for alt in g {
     for e in alt {
+      // the generic group opt<K> = (? K => value) is such a member with key type K
+      if let EK::Ref(n, args) = &e.kind {
+        if n == "opt" {
+          if let Some(T2::Name(kn, _)) = args.first().map(|a| &a.t2) {
+            if ms.iter().any(|es| es.iter().filter(|(key, _)| in_dom(kn, key)).count() >= 2) {
+              return Some(F_GREEDY.into());
+            }
+          }
+        }
+      }
       if let (Occ::One | Occ::Opt | Occ::Range(_, Some(_)), EK::Val(Some(Key::Arrow(k, _)), _)) = (&e.occ, &e.kind) {
         if let (None, T2::Name(n, _)) = (&k.op, &k.t2) {
           if ms.iter().any(|es| es.iter().filter(|(key, _)| in_dom(n, key)).count() >= 2) {
